@@ -165,7 +165,7 @@ fn eq_ic_model(a: &[u8], b: &[u8]) -> bool {
     true
 }
 
-// @harness props=C19 tier=quick mem=2 t=300 fn="<[u8]>::eq_ignore_ascii_case (std) vs the stub model used by the C19 harnesses"
+// @harness props=C19 tier=quick mem=2 t=600 fn="<[u8]>::eq_ignore_ascii_case (std) vs the stub model used by the C19 harnesses"
 //   bound="slices of 3 and of 18 octets (scalar path; one 16-octet chunk + 2-octet tail), all octet values; unwind 20"
 //   sym="a,b:[u8;3]; c,d:[u8;18]"
 #[kani::proof]
@@ -475,7 +475,7 @@ fn sk_check(a: &[u8], b: &[u8], class: u16, ty: u16) -> PairSeen {
 
 // ---- NS: the full length grid {0,1,3,4,5}^2, both orders -------------------
 
-// @harness props=C19 tier=thorough mem=3 t=900 fn="Rdata::equals,helpers::names_equal,helpers::test_n_name_fields,Name::try_from_uncompressed,<Name as PartialEq>::eq,<Label as PartialEq>::eq"
+// @harness props=C19 tier=thorough mem=2 t=900 fn="Rdata::equals,helpers::names_equal,helpers::test_n_name_fields,Name::try_from_uncompressed,<Name as PartialEq>::eq,<Label as PartialEq>::eq"
 //   bound="type NS, any class; RDATA lengths (0,0) (0,1) (0,3) (0,4) (0,5), all octet values; unwind 7"
 //   sym="a:[u8;0], b:[u8;0|1|3|4|5], class:u16" stubs="eq_ignore_ascii_case"
 #[kani::proof]
@@ -504,7 +504,7 @@ fn c19_ns_pair_1_1() {
     kani::cover!(!s.equal, "distinct one-octet RDATA are unequal");
 }
 
-// @harness props=C19 tier=quick mem=6 t=1800 fn="Rdata::equals,helpers::names_equal,helpers::test_n_name_fields,Name::try_from_uncompressed,<Name as PartialEq>::eq,<Label as PartialEq>::eq"
+// @harness props=C19 tier=quick mem=6 t=2400 fn="Rdata::equals,helpers::names_equal,helpers::test_n_name_fields,Name::try_from_uncompressed,<Name as PartialEq>::eq,<Label as PartialEq>::eq"
 //   bound="type NS, any class; RDATA lengths (3,3), all octet values, both orders; unwind 5"
 //   sym="a:[u8;3], b:[u8;3], class:u16" stubs="eq_ignore_ascii_case"
 #[kani::proof]
@@ -516,7 +516,7 @@ fn c19_ns_pair_3_3() {
     kani::cover!(!s.equal && s.same_up_to_case, "unequal RDATA that differ only in ASCII case (malformed, or case outside a name)");
 }
 
-// @harness props=C19 tier=quick mem=8 t=2400 fn="Rdata::equals,helpers::names_equal,helpers::test_n_name_fields,Name::try_from_uncompressed,<Name as PartialEq>::eq,<Label as PartialEq>::eq"
+// @harness props=C19 tier=quick mem=8 t=2700 fn="Rdata::equals,helpers::names_equal,helpers::test_n_name_fields,Name::try_from_uncompressed,<Name as PartialEq>::eq,<Label as PartialEq>::eq"
 //   bound="type NS, any class; RDATA lengths (3,4), all octet values, both orders; unwind 6"
 //   sym="a:[u8;3], b:[u8;4], class:u16" stubs="eq_ignore_ascii_case"
 #[kani::proof]
@@ -527,7 +527,7 @@ fn c19_ns_pair_3_4() {
     kani::cover!(!s.equal, "RDATA of different lengths are unequal");
 }
 
-// @harness props=C19 tier=thorough mem=7 t=3600 fn="Rdata::equals,helpers::names_equal,helpers::test_n_name_fields,Name::try_from_uncompressed,<Name as PartialEq>::eq,<Label as PartialEq>::eq"
+// @harness props=C19 tier=thorough mem=6 t=1800 fn="Rdata::equals,helpers::names_equal,helpers::test_n_name_fields,Name::try_from_uncompressed,<Name as PartialEq>::eq,<Label as PartialEq>::eq"
 //   bound="type NS, any class; RDATA lengths (1,3), all octet values, both orders; unwind 5"
 //   sym="a:[u8;1], b:[u8;3], class:u16" stubs="eq_ignore_ascii_case"
 #[kani::proof]
@@ -538,7 +538,7 @@ fn c19_ns_pair_1_3() {
     kani::cover!(!s.equal, "RDATA of different lengths are unequal");
 }
 
-// @harness props=C19 tier=thorough mem=11 t=3600 fn="Rdata::equals,helpers::names_equal,helpers::test_n_name_fields,Name::try_from_uncompressed,<Name as PartialEq>::eq,<Label as PartialEq>::eq"
+// @harness props=C19 tier=thorough mem=8 t=1800 fn="Rdata::equals,helpers::names_equal,helpers::test_n_name_fields,Name::try_from_uncompressed,<Name as PartialEq>::eq,<Label as PartialEq>::eq"
 //   bound="type NS, any class; RDATA lengths (1,4), all octet values, both orders; unwind 6"
 //   sym="a:[u8;1], b:[u8;4], class:u16" stubs="eq_ignore_ascii_case"
 #[kani::proof]
@@ -549,7 +549,7 @@ fn c19_ns_pair_1_4() {
     kani::cover!(!s.equal, "RDATA of different lengths are unequal");
 }
 
-// @harness props=C19 tier=thorough mem=11 t=3600 fn="Rdata::equals,helpers::names_equal,helpers::test_n_name_fields,Name::try_from_uncompressed,<Name as PartialEq>::eq,<Label as PartialEq>::eq"
+// @harness props=C19 tier=thorough mem=12 t=3600 fn="Rdata::equals,helpers::names_equal,helpers::test_n_name_fields,Name::try_from_uncompressed,<Name as PartialEq>::eq,<Label as PartialEq>::eq"
 //   bound="type NS, any class; RDATA lengths (1,5), all octet values, both orders; unwind 7"
 //   sym="a:[u8;1], b:[u8;5], class:u16" stubs="eq_ignore_ascii_case"
 #[kani::proof]
@@ -560,7 +560,7 @@ fn c19_ns_pair_1_5() {
     kani::cover!(!s.equal, "RDATA of different lengths are unequal");
 }
 
-// @harness props=C19 tier=thorough mem=12 t=4800 fn="Rdata::equals,helpers::names_equal,helpers::test_n_name_fields,Name::try_from_uncompressed,<Name as PartialEq>::eq,<Label as PartialEq>::eq"
+// @harness props=C19 tier=thorough mem=12 t=3600 fn="Rdata::equals,helpers::names_equal,helpers::test_n_name_fields,Name::try_from_uncompressed,<Name as PartialEq>::eq,<Label as PartialEq>::eq"
 //   bound="type NS, any class; RDATA lengths (3,5), all octet values, both orders; unwind 7"
 //   sym="a:[u8;3], b:[u8;5], class:u16" stubs="eq_ignore_ascii_case"
 #[kani::proof]
@@ -571,7 +571,7 @@ fn c19_ns_pair_3_5() {
     kani::cover!(!s.equal, "RDATA of different lengths are unequal");
 }
 
-// @harness props=C19 tier=thorough mem=8 t=3000 fn="Rdata::equals,helpers::names_equal,helpers::test_n_name_fields,Name::try_from_uncompressed,<Name as PartialEq>::eq,<Label as PartialEq>::eq"
+// @harness props=C19 tier=thorough mem=8 t=2400 fn="Rdata::equals,helpers::names_equal,helpers::test_n_name_fields,Name::try_from_uncompressed,<Name as PartialEq>::eq,<Label as PartialEq>::eq"
 //   bound="type NS, any class; RDATA lengths (4,4), all octet values, both orders; unwind 6"
 //   sym="a:[u8;4], b:[u8;4], class:u16" stubs="eq_ignore_ascii_case"
 #[kani::proof]
@@ -583,7 +583,7 @@ fn c19_ns_pair_4_4() {
     kani::cover!(!s.equal && s.same_up_to_case, "unequal RDATA that differ only in ASCII case (malformed, or case outside a name)");
 }
 
-// @harness props=C19 tier=thorough mem=12 t=4800 fn="Rdata::equals,helpers::names_equal,helpers::test_n_name_fields,Name::try_from_uncompressed,<Name as PartialEq>::eq,<Label as PartialEq>::eq"
+// @harness props=C19 tier=thorough mem=12 t=3600 fn="Rdata::equals,helpers::names_equal,helpers::test_n_name_fields,Name::try_from_uncompressed,<Name as PartialEq>::eq,<Label as PartialEq>::eq"
 //   bound="type NS, any class; RDATA lengths (4,5), all octet values, both orders; unwind 7"
 //   sym="a:[u8;4], b:[u8;5], class:u16" stubs="eq_ignore_ascii_case"
 #[kani::proof]
@@ -594,7 +594,7 @@ fn c19_ns_pair_4_5() {
     kani::cover!(!s.equal, "RDATA of different lengths are unequal");
 }
 
-// @harness props=C19 tier=thorough mem=12 t=5400 fn="Rdata::equals,helpers::names_equal,helpers::test_n_name_fields,Name::try_from_uncompressed,<Name as PartialEq>::eq,<Label as PartialEq>::eq"
+// @harness props=C19 tier=thorough mem=12 t=4800 fn="Rdata::equals,helpers::names_equal,helpers::test_n_name_fields,Name::try_from_uncompressed,<Name as PartialEq>::eq,<Label as PartialEq>::eq"
 //   bound="type NS, any class; RDATA lengths (5,5), all octet values, both orders; unwind 7"
 //   sym="a:[u8;5], b:[u8;5], class:u16" stubs="eq_ignore_ascii_case"
 #[kani::proof]
@@ -608,7 +608,7 @@ fn c19_ns_pair_5_5() {
 
 // ---- the other single-name types: (3,3) and (3,4) = name vs name+junk ------
 
-// @harness props=C19 tier=thorough mem=7 t=3600 fn="Rdata::equals,helpers::names_equal,helpers::test_n_name_fields,Name::try_from_uncompressed,<Name as PartialEq>::eq,<Label as PartialEq>::eq"
+// @harness props=C19 tier=thorough mem=8 t=3600 fn="Rdata::equals,helpers::names_equal,helpers::test_n_name_fields,Name::try_from_uncompressed,<Name as PartialEq>::eq,<Label as PartialEq>::eq"
 //   bound="type MD (3), any class; RDATA lengths (3,3) and (3,4) in the order (a,b), all octet values; unwind 6"
 //   sym="a:[u8;3], b:[u8;3]; a2:[u8;3], b2:[u8;4]; class:u16" stubs="eq_ignore_ascii_case"
 #[kani::proof]
@@ -622,7 +622,7 @@ fn c19_md_pairs() {
     kani::cover!(!s.equal, "RDATA of different lengths are unequal");
 }
 
-// @harness props=C19 tier=thorough mem=7 t=3600 fn="Rdata::equals,helpers::names_equal,helpers::test_n_name_fields,Name::try_from_uncompressed,<Name as PartialEq>::eq,<Label as PartialEq>::eq"
+// @harness props=C19 tier=thorough mem=8 t=3600 fn="Rdata::equals,helpers::names_equal,helpers::test_n_name_fields,Name::try_from_uncompressed,<Name as PartialEq>::eq,<Label as PartialEq>::eq"
 //   bound="type MF (4), any class; RDATA lengths (3,3) and (3,4) in the order (a,b), all octet values; unwind 6"
 //   sym="a:[u8;3], b:[u8;3]; a2:[u8;3], b2:[u8;4]; class:u16" stubs="eq_ignore_ascii_case"
 #[kani::proof]
@@ -636,7 +636,7 @@ fn c19_mf_pairs() {
     kani::cover!(!s.equal, "RDATA of different lengths are unequal");
 }
 
-// @harness props=C19 tier=thorough mem=7 t=3600 fn="Rdata::equals,helpers::names_equal,helpers::test_n_name_fields,Name::try_from_uncompressed,<Name as PartialEq>::eq,<Label as PartialEq>::eq"
+// @harness props=C19 tier=thorough mem=8 t=3600 fn="Rdata::equals,helpers::names_equal,helpers::test_n_name_fields,Name::try_from_uncompressed,<Name as PartialEq>::eq,<Label as PartialEq>::eq"
 //   bound="type CNAME (5), any class; RDATA lengths (3,3) and (3,4) in the order (a,b), all octet values; unwind 6"
 //   sym="a:[u8;3], b:[u8;3]; a2:[u8;3], b2:[u8;4]; class:u16" stubs="eq_ignore_ascii_case"
 #[kani::proof]
@@ -650,7 +650,7 @@ fn c19_cname_pairs() {
     kani::cover!(!s.equal, "RDATA of different lengths are unequal");
 }
 
-// @harness props=C19 tier=thorough mem=7 t=3600 fn="Rdata::equals,helpers::names_equal,helpers::test_n_name_fields,Name::try_from_uncompressed,<Name as PartialEq>::eq,<Label as PartialEq>::eq"
+// @harness props=C19 tier=thorough mem=8 t=3600 fn="Rdata::equals,helpers::names_equal,helpers::test_n_name_fields,Name::try_from_uncompressed,<Name as PartialEq>::eq,<Label as PartialEq>::eq"
 //   bound="type MB (7), any class; RDATA lengths (3,3) and (3,4) in the order (a,b), all octet values; unwind 6"
 //   sym="a:[u8;3], b:[u8;3]; a2:[u8;3], b2:[u8;4]; class:u16" stubs="eq_ignore_ascii_case"
 #[kani::proof]
@@ -664,7 +664,7 @@ fn c19_mb_pairs() {
     kani::cover!(!s.equal, "RDATA of different lengths are unequal");
 }
 
-// @harness props=C19 tier=thorough mem=7 t=3600 fn="Rdata::equals,helpers::names_equal,helpers::test_n_name_fields,Name::try_from_uncompressed,<Name as PartialEq>::eq,<Label as PartialEq>::eq"
+// @harness props=C19 tier=thorough mem=8 t=3600 fn="Rdata::equals,helpers::names_equal,helpers::test_n_name_fields,Name::try_from_uncompressed,<Name as PartialEq>::eq,<Label as PartialEq>::eq"
 //   bound="type MG (8), any class; RDATA lengths (3,3) and (3,4) in the order (a,b), all octet values; unwind 6"
 //   sym="a:[u8;3], b:[u8;3]; a2:[u8;3], b2:[u8;4]; class:u16" stubs="eq_ignore_ascii_case"
 #[kani::proof]
@@ -678,7 +678,7 @@ fn c19_mg_pairs() {
     kani::cover!(!s.equal, "RDATA of different lengths are unequal");
 }
 
-// @harness props=C19 tier=thorough mem=7 t=3600 fn="Rdata::equals,helpers::names_equal,helpers::test_n_name_fields,Name::try_from_uncompressed,<Name as PartialEq>::eq,<Label as PartialEq>::eq"
+// @harness props=C19 tier=thorough mem=8 t=3600 fn="Rdata::equals,helpers::names_equal,helpers::test_n_name_fields,Name::try_from_uncompressed,<Name as PartialEq>::eq,<Label as PartialEq>::eq"
 //   bound="type MR (9), any class; RDATA lengths (3,3) and (3,4) in the order (a,b), all octet values; unwind 6"
 //   sym="a:[u8;3], b:[u8;3]; a2:[u8;3], b2:[u8;4]; class:u16" stubs="eq_ignore_ascii_case"
 #[kani::proof]
@@ -692,7 +692,7 @@ fn c19_mr_pairs() {
     kani::cover!(!s.equal, "RDATA of different lengths are unequal");
 }
 
-// @harness props=C19 tier=thorough mem=7 t=3600 fn="Rdata::equals,helpers::names_equal,helpers::test_n_name_fields,Name::try_from_uncompressed,<Name as PartialEq>::eq,<Label as PartialEq>::eq"
+// @harness props=C19 tier=thorough mem=8 t=3600 fn="Rdata::equals,helpers::names_equal,helpers::test_n_name_fields,Name::try_from_uncompressed,<Name as PartialEq>::eq,<Label as PartialEq>::eq"
 //   bound="type PTR (12), any class; RDATA lengths (3,3) and (3,4) in the order (a,b), all octet values; unwind 6"
 //   sym="a:[u8;3], b:[u8;3]; a2:[u8;3], b2:[u8;4]; class:u16" stubs="eq_ignore_ascii_case"
 #[kani::proof]
@@ -708,7 +708,7 @@ fn c19_ptr_pairs() {
 
 // ---- type MX (15): u16 preference + name ----
 
-// @harness props=C19 tier=thorough mem=7 t=3000 fn="Rdata::equals,Rdata::equals_as_mx,helpers::names_equal,helpers::test_n_name_fields"
+// @harness props=C19 tier=thorough mem=7 t=2400 fn="Rdata::equals,Rdata::equals_as_mx,helpers::names_equal,helpers::test_n_name_fields"
 //   bound="type MX (15): u16 preference + name, any class; RDATA lengths (5,5) in the order (a,b), all octet values; unwind 7"
 //   sym="a:[u8;5], b:[u8;5], class:u16" stubs="eq_ignore_ascii_case"
 #[kani::proof]
@@ -720,7 +720,7 @@ fn c19_mx_pair_5_5() {
     kani::cover!(!s.equal && s.same_up_to_case, "unequal RDATA that differ only in ASCII case (malformed, or case outside a name)");
 }
 
-// @harness props=C19 tier=thorough mem=4 t=1200 fn="Rdata::equals,Rdata::equals_as_mx,helpers::names_equal,helpers::test_n_name_fields"
+// @harness props=C19 tier=thorough mem=2 t=600 fn="Rdata::equals,Rdata::equals_as_mx,helpers::names_equal,helpers::test_n_name_fields"
 //   bound="type MX (15): u16 preference + name, any class; RDATA lengths (1,1) (1,2) (2,2) (2,3) (5,6) (too short for a name, or different lengths), all octet values, both orders; unwind 8"
 //   sym="pairs of [u8;LA],[u8;LB]" stubs="eq_ignore_ascii_case"
 #[kani::proof]
@@ -738,7 +738,7 @@ fn c19_mx_pair_short() {
 
 // ---- type SRV (33): 6 octets + name ----
 
-// @harness props=C19 tier=thorough mem=4 t=1200 fn="Rdata::equals,Rdata::equals_as_in_srv,helpers::names_equal,helpers::test_n_name_fields"
+// @harness props=C19 tier=thorough mem=2 t=600 fn="Rdata::equals,Rdata::equals_as_in_srv,helpers::names_equal,helpers::test_n_name_fields"
 //   bound="type SRV (33): 6 octets + name, class IN; RDATA lengths (5,5) (5,6) (6,6) (9,10) (too short for a name, or different lengths), all octet values, both orders; unwind 12"
 //   sym="pairs of [u8;LA],[u8;LB]" stubs="eq_ignore_ascii_case"
 #[kani::proof]
@@ -755,7 +755,7 @@ fn c19_srv_pair_short() {
 
 // ---- type A (1) in class CH: name + 16-bit address ----
 
-// @harness props=C19 tier=thorough mem=7 t=3000 fn="Rdata::equals,Rdata::equals_as_ch_a,helpers::test_n_name_fields"
+// @harness props=C19 tier=thorough mem=7 t=2400 fn="Rdata::equals,Rdata::equals_as_ch_a,helpers::test_n_name_fields"
 //   bound="type A (1) in class CH: name + 16-bit address, class CH; RDATA lengths (5,5) in the order (a,b), all octet values; unwind 7"
 //   sym="a:[u8;5], b:[u8;5]" stubs="eq_ignore_ascii_case"
 #[kani::proof]
@@ -767,7 +767,7 @@ fn c19_ch_a_pair_5_5() {
     kani::cover!(!s.equal && s.same_up_to_case, "unequal RDATA that differ only in ASCII case (malformed, or case outside a name)");
 }
 
-// @harness props=C19 tier=thorough mem=4 t=1200 fn="Rdata::equals,Rdata::equals_as_ch_a,helpers::test_n_name_fields"
+// @harness props=C19 tier=thorough mem=2 t=600 fn="Rdata::equals,Rdata::equals_as_ch_a,helpers::test_n_name_fields"
 //   bound="type A (1) in class CH: name + 16-bit address, class CH; RDATA lengths (5,6) (3,4) (different lengths), all octet values, both orders; unwind 8"
 //   sym="pairs of [u8;LA],[u8;LB]" stubs="eq_ignore_ascii_case"
 #[kani::proof]
@@ -782,7 +782,7 @@ fn c19_ch_a_pair_short() {
 
 // ---- type MINFO (14): two names ----
 
-// @harness props=C19 tier=thorough mem=8 t=3000 fn="Rdata::equals,Rdata::equals_as_minfo,helpers::test_n_name_fields"
+// @harness props=C19 tier=thorough mem=8 t=2400 fn="Rdata::equals,Rdata::equals_as_minfo,helpers::test_n_name_fields"
 //   bound="type MINFO (14): two names, any class; RDATA lengths (4,4) in the order (a,b), all octet values; unwind 6"
 //   sym="a:[u8;4], b:[u8;4], class:u16" stubs="eq_ignore_ascii_case"
 #[kani::proof]
@@ -794,7 +794,7 @@ fn c19_minfo_pair_4_4() {
     kani::cover!(!s.equal && s.same_up_to_case, "unequal RDATA that differ only in ASCII case (malformed, or case outside a name)");
 }
 
-// @harness props=C19 tier=thorough mem=4 t=1200 fn="Rdata::equals,Rdata::equals_as_minfo,helpers::test_n_name_fields"
+// @harness props=C19 tier=thorough mem=2 t=600 fn="Rdata::equals,Rdata::equals_as_minfo,helpers::test_n_name_fields"
 //   bound="type MINFO (14): two names, any class; RDATA lengths (2,4) (4,6) (different lengths), all octet values, both orders; unwind 8"
 //   sym="pairs of [u8;LA],[u8;LB]" stubs="eq_ignore_ascii_case"
 #[kani::proof]
@@ -809,7 +809,7 @@ fn c19_minfo_pair_short() {
 
 // ---- skeleton pairs: SOA, and longer names ---------------------------------
 
-// @harness props=C19 tier=thorough mem=5 t=2400 fn="Rdata::equals,Rdata::equals_as_soa,helpers::test_n_name_fields"
+// @harness props=C19 tier=thorough mem=4 t=2400 fn="Rdata::equals,Rdata::equals_as_soa,helpers::test_n_name_fields"
 //   bound="type SOA, any class; both RDATA = 1-octet-label name, root name, 20 octets (24 octets, well formed); symbolic label contents, fixed-field and junk octets; both orders, reflexivity; unwind 26"
 //   sym="content octets" stubs="eq_ignore_ascii_case"
 #[kani::proof]
@@ -823,7 +823,7 @@ fn c19_soa_skeleton_wf() {
     kani::cover!(!s.equal, "unequal RDATA");
 }
 
-// @harness props=C19 tier=thorough mem=5 t=2400 fn="Rdata::equals,Rdata::equals_as_soa,helpers::test_n_name_fields"
+// @harness props=C19 tier=thorough mem=3 t=1200 fn="Rdata::equals,Rdata::equals_as_soa,helpers::test_n_name_fields"
 //   bound="type SOA, any class; a = 1-octet-label name, root, 20 octets; b = root, 1-octet-label name, 20 octets (both 24 octets, well formed, names differ); symbolic label contents, fixed-field and junk octets; both orders, reflexivity; unwind 26"
 //   sym="content octets" stubs="eq_ignore_ascii_case"
 #[kani::proof]
@@ -836,7 +836,7 @@ fn c19_soa_skeleton_split() {
     kani::cover!(!s.equal, "unequal RDATA");
 }
 
-// @harness props=C19 tier=thorough mem=5 t=2400 fn="Rdata::equals,Rdata::equals_as_soa,helpers::test_n_name_fields"
+// @harness props=C19 tier=thorough mem=4 t=2400 fn="Rdata::equals,Rdata::equals_as_soa,helpers::test_n_name_fields"
 //   bound="type SOA, any class; a = two 1-octet-label names + 18 octets (24 octets, malformed: fixed part too short); b = the same shape; symbolic label contents, fixed-field and junk octets; both orders, reflexivity; unwind 26"
 //   sym="content octets" stubs="eq_ignore_ascii_case"
 #[kani::proof]
@@ -850,7 +850,7 @@ fn c19_soa_skeleton_short() {
     kani::cover!(s.equal, "identical malformed SOA RDATA are equal");
 }
 
-// @harness props=C19 tier=thorough mem=5 t=2400 fn="Rdata::equals,Rdata::equals_as_minfo,helpers::test_n_name_fields"
+// @harness props=C19 tier=thorough mem=4 t=1200 fn="Rdata::equals,Rdata::equals_as_minfo,helpers::test_n_name_fields"
 //   bound="type MINFO, any class; both RDATA = two 1-octet-label names (6 octets); symbolic label contents, fixed-field and junk octets; both orders, reflexivity; unwind 8"
 //   sym="content octets" stubs="eq_ignore_ascii_case"
 #[kani::proof]
@@ -864,7 +864,7 @@ fn c19_minfo_skeleton_6_6() {
     kani::cover!(!s.equal, "unequal RDATA");
 }
 
-// @harness props=C19 tier=thorough mem=5 t=2400 fn="Rdata::equals,helpers::names_equal,helpers::test_n_name_fields,Name::try_from_uncompressed,<Name as PartialEq>::eq,<Label as PartialEq>::eq"
+// @harness props=C19 tier=thorough mem=3 t=1200 fn="Rdata::equals,helpers::names_equal,helpers::test_n_name_fields,Name::try_from_uncompressed,<Name as PartialEq>::eq,<Label as PartialEq>::eq"
 //   bound="type NS, any class; both RDATA = a name of two 3-octet labels (9 octets); symbolic label contents, fixed-field and junk octets; both orders, reflexivity; unwind 11"
 //   sym="content octets" stubs="eq_ignore_ascii_case"
 #[kani::proof]
@@ -878,7 +878,7 @@ fn c19_ns_skeleton_9_9() {
     kani::cover!(!s.equal, "unequal RDATA");
 }
 
-// @harness props=C19 tier=thorough mem=5 t=2400 fn="Rdata::equals,Rdata::equals_as_in_srv,helpers::names_equal,helpers::test_n_name_fields"
+// @harness props=C19 tier=thorough mem=3 t=1200 fn="Rdata::equals,Rdata::equals_as_in_srv,helpers::names_equal,helpers::test_n_name_fields"
 //   bound="type SRV class IN; both RDATA = 6 fixed octets + a name of two 3-octet labels (15 octets); symbolic label contents, fixed-field and junk octets; both orders, reflexivity; unwind 17"
 //   sym="content octets" stubs="eq_ignore_ascii_case"
 #[kani::proof]
@@ -894,7 +894,7 @@ fn c19_srv_skeleton_15_15() {
 
 // ---- everything outside the table: octet equality ----------------------------
 
-// @harness props=C19 tier=quick mem=3 t=600 fn="Rdata::equals (dispatch; all arms with the name helpers over-approximated)"
+// @harness props=C19 tier=quick mem=2 t=900 fn="Rdata::equals (dispatch; all arms with the name helpers over-approximated)"
 //   bound="EVERY class (u16) and type (u16) for which the reference table has no entry (includes A outside CH, SRV outside IN, TXT, AAAA, OPT, TSIG, unknown types); RDATA lengths (3,3) (3,4) (4,4), all octet values; unwind 8"
 //   sym="class:u16, type:u16, a,b symbolic" stubs="names_equal/test_n_name_fields -> arbitrary result (over-approximation)"
 #[kani::proof]
@@ -913,7 +913,7 @@ fn c19_unlisted_types() {
     unlisted::<4, 4>(class, ty);
 }
 
-// @harness props=C19 tier=quick mem=2 t=300 fn="Rdata::equals"
+// @harness props=C19 tier=quick mem=2 t=600 fn="Rdata::equals"
 //   bound="concrete (class,type): IN A, HS A, CH SRV, IN TXT, IN AAAA, IN OPT, ANY TSIG, IN 0xff00; RDATA lengths (4,4) and (3,4), all octet values; no stubs; unwind 10"
 //   sym="a:[u8;4], b:[u8;4]; a2:[u8;3]"
 #[kani::proof]
@@ -940,7 +940,7 @@ fn c19_other_types_real() {
 
 // ---- reflexivity, stated on its own ------------------------------------------
 
-// @harness props=C19 tier=thorough mem=6 t=2400 fn="Rdata::equals,helpers::names_equal,helpers::test_n_name_fields,Name::try_from_uncompressed,<Name as PartialEq>::eq,<Label as PartialEq>::eq"
+// @harness props=C19 tier=thorough mem=8 t=2400 fn="Rdata::equals,helpers::names_equal,helpers::test_n_name_fields,Name::try_from_uncompressed,<Name as PartialEq>::eq,<Label as PartialEq>::eq"
 //   bound="type NS, any class; one RDATA of length 3 and one of length 4, each compared with itself, all octet values (reflexivity is also implied by equals == ref_equals on the equal-length pairs and asserted in every skeleton harness); unwind 6"
 //   sym="a:[u8;3]; b:[u8;4]; class:u16" stubs="eq_ignore_ascii_case"
 #[kani::proof]
@@ -955,7 +955,7 @@ fn c19_ns_refl_3_4() {
 
 // ---- transitivity -----------------------------------------------------------
 
-// @harness props=C19 tier=thorough mem=8 t=3000 fn="Rdata::equals,helpers::names_equal,helpers::test_n_name_fields,Name::try_from_uncompressed,<Name as PartialEq>::eq,<Label as PartialEq>::eq"
+// @harness props=C19 tier=thorough mem=8 t=2400 fn="Rdata::equals,helpers::names_equal,helpers::test_n_name_fields,Name::try_from_uncompressed,<Name as PartialEq>::eq,<Label as PartialEq>::eq"
 //   bound="type NS, any class; three RDATA of lengths (3,3,3), all octet values; unwind 5"
 //   sym="a,b,c:[u8;3], class:u16" stubs="eq_ignore_ascii_case"
 #[kani::proof]
@@ -966,7 +966,7 @@ fn c19_ns_triple_3_3_3() {
     kani::cover!(w, "a chain a ~ b ~ c through octet-different names");
 }
 
-// @harness props=C19 tier=thorough mem=7 t=3600 fn="Rdata::equals,helpers::names_equal,helpers::test_n_name_fields,Name::try_from_uncompressed,<Name as PartialEq>::eq,<Label as PartialEq>::eq"
+// @harness props=C19 tier=thorough mem=12 t=3000 fn="Rdata::equals,helpers::names_equal,helpers::test_n_name_fields,Name::try_from_uncompressed,<Name as PartialEq>::eq,<Label as PartialEq>::eq"
 //   bound="type NS, any class; three RDATA of lengths (3,4,3), all octet values; unwind 6"
 //   sym="a,c:[u8;3], b:[u8;4], class:u16" stubs="eq_ignore_ascii_case"
 #[kani::proof]
@@ -979,7 +979,7 @@ fn c19_ns_triple_3_4_3() {
 
 // ---- RdataSetOwned ----------------------------------------------------------
 
-// @harness props=C19 tier=quick mem=2 t=300 fn="RdataSetOwned::from_iter"
+// @harness props=C19 tier=quick mem=2 t=600 fn="RdataSetOwned::from_iter"
 //   bound="symbolic class and type; the empty sequence; unwind 3"
 //   sym="class:u16, type:u16"
 #[kani::proof]
@@ -992,7 +992,7 @@ fn c19_set_from_iter_empty() {
     kani::cover!(ty == 2, "type NS");
 }
 
-// @harness props=C19 tier=quick mem=2 t=300 fn="RdataSetOwned::from_iter,RdataSetOwned::insert,<RdataSetOwned as From<&Rdata>>::from,RdataSet::iter,<rdata_set::Iter as Iterator>::next,Rdata::equals"
+// @harness props=C19 tier=quick mem=2 t=600 fn="RdataSetOwned::from_iter,RdataSetOwned::insert,<RdataSetOwned as From<&Rdata>>::from,RdataSet::iter,<rdata_set::Iter as Iterator>::next,Rdata::equals"
 //   bound="class IN type A; two RDATA of 4 octets, all octet values; from_iter; unwind 6"
 //   sym="r1,r2:[u8;4]"
 #[kani::proof]
@@ -1003,7 +1003,7 @@ fn c19_set_a_from_iter() {
     kani::cover!(k2, "second is new");
 }
 
-// @harness props=C19 tier=quick mem=3 t=900 fn="RdataSetOwned::from_iter,RdataSetOwned::insert,<RdataSetOwned as From<&Rdata>>::from,RdataSet::iter,<rdata_set::Iter as Iterator>::next,Rdata::equals"
+// @harness props=C19 tier=quick mem=3 t=1800 fn="RdataSetOwned::from_iter,RdataSetOwned::insert,<RdataSetOwned as From<&Rdata>>::from,RdataSet::iter,<rdata_set::Iter as Iterator>::next,Rdata::equals"
 //   bound="class IN type A; three RDATA of 4 octets, all octet values; from_iter; unwind 6"
 //   sym="r1,r2,r3:[u8;4]"
 #[kani::proof]
@@ -1014,7 +1014,7 @@ fn c19_set_a_from_iter3() {
     kani::cover!(k2 && !k3, "third duplicates an earlier member");
 }
 
-// @harness props=C19 tier=quick mem=3 t=900 fn="RdataSetOwned::from_iter,RdataSetOwned::insert,<RdataSetOwned as From<&Rdata>>::from,RdataSet::iter,<rdata_set::Iter as Iterator>::next,Rdata::equals"
+// @harness props=C19 tier=quick mem=3 t=1800 fn="RdataSetOwned::from_iter,RdataSetOwned::insert,<RdataSetOwned as From<&Rdata>>::from,RdataSet::iter,<rdata_set::Iter as Iterator>::next,Rdata::equals"
 //   bound="class IN type A; three RDATA of 4 octets, all octet values; From + insert, insert return values; unwind 6"
 //   sym="r1,r2,r3:[u8;4]"
 #[kani::proof]
@@ -1025,7 +1025,7 @@ fn c19_set_a_insert() {
     kani::cover!(k2 && !k3, "third duplicates an earlier member");
 }
 
-// @harness props=C19 tier=thorough mem=7 t=2400 fn="RdataSetOwned::from_iter,RdataSetOwned::insert,<RdataSetOwned as From<&Rdata>>::from,RdataSet::iter,<rdata_set::Iter as Iterator>::next,Rdata::equals,Rdata::equals,helpers::names_equal,helpers::test_n_name_fields,Name::try_from_uncompressed,<Name as PartialEq>::eq,<Label as PartialEq>::eq"
+// @harness props=C19 tier=thorough mem=7 t=1800 fn="RdataSetOwned::from_iter,RdataSetOwned::insert,<RdataSetOwned as From<&Rdata>>::from,RdataSet::iter,<rdata_set::Iter as Iterator>::next,Rdata::equals,Rdata::equals,helpers::names_equal,helpers::test_n_name_fields,Name::try_from_uncompressed,<Name as PartialEq>::eq,<Label as PartialEq>::eq"
 //   bound="class IN type NS; two RDATA of lengths (3,3), all octet values; from_iter; unwind 7"
 //   sym="r1,r2:[u8;3]" stubs="eq_ignore_ascii_case"
 #[kani::proof]
